@@ -20,6 +20,12 @@ RULE = ('ThreadSim (see C12): 2-3 sender threads with 1-3 send_text / '
         'peer inflating RSV1 frames in wire order recovers every message.  '
         'Non-trivial = >= 2 threads wrote frames; distinct = distinct (base, '
         'switch sites, wire order) signatures')
+RULE += (' '
+         "Further family `stall`: one sender's sendall blocks half-way for "
+         '1-65 s of simulated time (40 % of these through an HTTP proxy; a '
+         'socket with a time-out gives up after it with half of the data '
+         "written) while the other threads and the event loop's own pings / "
+         'pongs want to write.')
 SHRINK_LISTS = [('schedule', 'points')]
 EXPECTED_PROBES = ['lock_contended', 'split_writes', 'with_compression',
                    'context_takeover', 'auto_pong_raced', 'auto_ping_raced',
